@@ -692,6 +692,17 @@ func (p *Prov) sinks(fns map[*ssa.Function]bool) []*Sink {
 					if calleeKey(&x.Call) == omMethod("Set") {
 						out = append(out, &Sink{Fn: fn, Instr: in, Kind: "set", Val: x.Call.Args[2], Key: x.Call.Args[1], Recv: x.Call.Args[0]})
 					}
+					if calleeKey(&x.Call) == "builtin append" && isAnySlice(x.Type()) && len(x.Call.Args) == 2 {
+						vals := varargValues(x.Call.Args[1])
+						if len(vals) == 0 {
+							vals = []ssa.Value{x.Call.Args[1]}
+						}
+						for _, v := range vals {
+							if v != nil {
+								out = append(out, &Sink{Fn: fn, Instr: in, Kind: "append", Val: v, Recv: x.Call.Args[0]})
+							}
+						}
+					}
 				case *ssa.Store:
 					if ia, ok := x.Addr.(*ssa.IndexAddr); ok {
 						if _, isArr := ia.X.(*ssa.Alloc); isArr {
